@@ -306,9 +306,15 @@ fn fs_case_variant<P: G>(cfg: Cfg, identity_first: bool) -> Box<dyn Case> {
                 }
             }
         }
-        // prover messages depend on its randomness: another RNG stream changes A, hence every challenge
-        if let Some((p2, _)) = prover_run::<P>(&built.statement, &built.witness, &ctx, 82) {
-            check_dependence("prover", "A (other RNG stream)", &prun.draws, &p2.draws, 0, &mut res);
+        // another RNG stream gives another A, hence every challenge changes. (Whether A depends on the RNG at all is C13's
+        // question: if the second run's A is the same point, there is no perturbation to follow through the transcript.)
+        if let Some((p2, Some(proof2))) = prover_run::<P>(&built.statement, &built.witness, &ctx, 82) {
+            let a_changed = ref_proof_of(&proof2).map(|q| q.a != rp.a).unwrap_or(false);
+            if a_changed {
+                check_dependence("prover", "A (other RNG stream)", &prun.draws, &p2.draws, 0, &mut res);
+            } else {
+                *res.outcome_counter("A-unchanged-by-another-RNG-stream(skipped)") += 1;
+            }
         }
 
         // ---------------- functional dependence, prover messages (verifier role)
